@@ -138,7 +138,7 @@ func (w *verifWorld) inv(check func(bool, string)) {
 		nc += verifB2U(verifAnd(hasState, s == connectivity.Connecting))
 		nt += verifB2U(verifAnd(hasState, s == connectivity.TransientFailure))
 		rs, repl := gb.refreshingScRefs[sc]
-		check(!verifAnd(repl, inPool), "C03,C07: I-refr replacement connection is a pool member")
+		check(!verifAnd(repl, inPool), "C03,C04,C07,C09: I-refr replacement connection is a pool member (its later state reports would be ignored)")
 		check(verifImplies(repl, rs != nil), "C07: I-refr nil slot for a replacement")
 		check(verifImplies(repl, verifOrElse(rs, w.refs[0]).refreshing), "C07: I-refr slot of a pending replacement is not marked refreshing")
 		check(verifImplies(repl, w.listed(rs)), "C07: I-list refreshing slot is not in scRefList")
@@ -158,6 +158,13 @@ func (w *verifWorld) inv(check func(bool, string)) {
 			check(verifImplies(i-vM >= cc.nextFresh, verifAnd(!inPool, !repl)), "C03: I-fresh unissued connection is known to the balancer")
 		}
 	}
+	// the nil connection (what a failed NewSubConn returns) is a key of no map: every loop over these
+	// maps calls methods on the keys
+	var nilSC balancer.SubConn
+	_, nil1 := gb.scRefs[nilSC]
+	_, nil2 := gb.scStates[nilSC]
+	_, nil3 := gb.refreshingScRefs[nilSC]
+	check(!nil1 && !nil2 && !nil3, "C05,C07: I-pool the nil connection is a key of a balancer map")
 	for j := 0; j < vR; j++ {
 		for j2 := j + 1; j2 < vR; j2++ {
 			check(w.refs[j].subConn != w.refs[j2].subConn, "C01,C03: I-pool two channels own the same connection")
